@@ -76,6 +76,35 @@ class _UuidSource:
         return _uuid.UUID(int=self.rng.getrandbits(128), version=1)
 
 
+class _IdSource:
+    """Stand-in for builtins.id inside two dask modules that build layer names from
+    str(id(collection)) (memory addresses differ from process to process, and those names feed
+    dask-expr tokens and therefore task keys).  Numbers are handed out in first-use order, which
+    is a function of the program, so keys become a function of the run's seed only.  Two live
+    objects always get different numbers (every numbered object is kept alive until the next
+    reseed, so no address is reused while its number is in the table)."""
+
+    def __init__(self):
+        self.map = {}
+        self.n = 0
+
+    def reseed(self):
+        self.map = {}
+        self.n = 0
+
+    def __call__(self, obj):
+        k = _real_id(obj)
+        v = self.map.get(k)
+        if v is None:
+            self.n += 1
+            # keep the object alive until the next reseed: its address cannot be reused by another
+            # object meanwhile, so a number is never shared (address reuse is not reproducible)
+            v = self.map[k] = (10 ** 12 + self.n, obj)
+        return v[0]
+
+
+_real_id = id
+IDS = _IdSource()
 UUIDS = _UuidSource()
 _installed = False
 
@@ -99,6 +128,12 @@ def install():
     _installed = True
     _uuid.uuid4 = UUIDS.uuid4
     _uuid.uuid1 = UUIDS.uuid1
+    import dask._expr
+    import dask.highlevelgraph
+    import dask.array.optimization
+    import dask.delayed
+    for mod in (dask._expr, dask.highlevelgraph, dask.delayed, dask.array.optimization):
+        mod.id = IDS
 
     from dask.tokenize import normalize_token
     from numba.core.dispatcher import Dispatcher
@@ -121,3 +156,4 @@ def install():
 def reseed(seed):
     """Start of a run: make names a function of the run's seed only."""
     UUIDS.reseed(seed)
+    IDS.reseed()
